@@ -169,6 +169,25 @@ def rule_R1(ctx, f):
                     if is_call(src, ["MetricFamily::name", "get_name"]) and peel(src[2][0]) == P(1):
                         tests["name"] = rejecting(c, edge)
         ctx.ob(rid, "check_metric_family|rejects", tests == {"metric": True, "name": True}, "a family without samples or without a name must be refused (found %s)" % tests, site=c.raw["span"]["at"])
+        # ... and nothing else: every Err the check can return lies behind one of the two emptiness tests (a family of any type, UNTYPED included, is encodable)
+        from pvrules.rules import result_assign_blocks
+        errb, _okb = result_assign_blocks(c)
+        edges = []
+        for bi in c.reachable_blocks():
+            be = c.bool_edges(bi)
+            if not be:
+                continue
+            cnd = be[0]
+            if is_call(cnd, ["slice::is_empty", "str::is_empty", "Vec::is_empty", "String::is_empty"]):
+                edges.append((bi, be[1]))
+            elif cnd[0] == "binop" and cnd[1] in ("Eq", "Ne") and any(is_call(peel(z), ["slice::len", "Vec::len", "str::len", "String::len"]) for z in (cnd[2], cnd[3])):
+                edges.append((bi, be[1] if cnd[1] == "Eq" else be[2]))
+        # (path formulation: with both tests answering "not empty" no Err can be reached, however the error value is put together)
+        region = c.reach_ps(0, avoid_edges=set(edges))
+        stray = [x for x in errb if x in region]
+        other_calls = [x for x in c.calls() if x.matches(["Try::branch", "FromResidual::from_residual"]) and x.bb in region]
+        ctx.ob(rid, "check_metric_family|rejects-nothing-else", not stray and not other_calls,
+               "check_metric_family may refuse a family only for having no samples or no name (it guards both encoders): found an Err outside these two tests", site=c.raw["span"]["at"])
 
 
 def rule_R2(ctx, f):
